@@ -8,6 +8,10 @@
 //	      of the input at the offsets an independent TLV walker computes.
 //	(ii)  conformance: see conform.go.
 //	(iii) concatenations: ParseCertificates(c1||c2||...) against each piece alone.
+//	(iv)  certificate lists with sound / wrongly flagged / undecodable extension values at the entry
+//	      and at the list level, every combination of the two levels: see crlext.go.
+//	(v)   empty / boundary cardinalities of every SET OF, SEQUENCE OF and constructed element of
+//	      certificates, requests, lists and keys: see cardinality.go.
 //
 // Model-tied cases (CSingle / CMany / CStrict / CList / CFatal) additionally carry what the inner
 // pieces (asn1.Unmarshal strict / lax into the real structure type, parseCertificate) do on the
@@ -524,6 +528,8 @@ type runner struct {
 	certs [][]byte // well-formed certificates (donors, concatenation pieces)
 	bare  [][]byte // well-formed certificates lacking optional fields (no version / extensions / unique ids / parameters)
 	all   [][]byte // every well-formed document
+
+	flipped map[string]bool // conformance: extension values already issued with the critical flag flipped
 }
 
 // coherence + raw + totality of ONE parser on ONE input
@@ -847,6 +853,7 @@ func main() {
 	defer rn.w.Guard()
 	docs := loadPEMDocs()
 	gd := generatedDocs()
+	gd = append(gd, multiPrimeDocs()...)
 	docs = append(docs, gd...)
 	// certificates lacking optional fields, derived from a CA and a leaf donor
 	var donors []*x509.Certificate
@@ -865,6 +872,11 @@ func main() {
 	// documents with strings of every type in names, alternative names, qualifiers, attributes
 	if len(donors) > 0 {
 		docs = append(docs, stringDocs(donors[0])...)
+	}
+	// documents at the empty / boundary cardinalities of their lists, and sound ones holding every list (cardinality.go)
+	var cardHand, cardSites []doc
+	if len(donors) > 0 {
+		cardHand, cardSites = cardinalityDocs(donors[0])
 	}
 	// TBS documents from the certificates
 	var tbsDocs []doc
@@ -1016,6 +1028,14 @@ func main() {
 
 	// 6. every string / time tag on every string-valued node, all length classes (strtag.go)
 	rn.stringRetagStream(byKind)
+
+	// 7. certificate lists with sound / non-fatally wrong / fatally wrong extension values at the
+	//    entry level and at the list level, hand-encoded (crlext.go)
+	rn.crlExtensionStream()
+
+	// 8. empty / one-member / one-less / one-more at every list and constructed element: hand-written
+	//    documents and a structural operator on every node of every document (cardinality.go)
+	rn.cardinalityStream(byKind, cardHand, cardSites)
 
 	rn.w.Close()
 	fmt.Printf("c11: %d cases\n", rn.w.Len())
